@@ -224,13 +224,12 @@ pub fn h_c33_cf_rule_formulas() {
         let cfs = &model.workbook.worksheets[0].conditional_formatting;
         check("C33.cf_rule.kept", cfs.len() == 1);
         if cfs.len() == 1 {
-            match &cfs[0].cf_rule {
-                CfRule::CellIs { formula, formula2, .. } => {
-                    check("C33.cf_rule.first_bound_follows", *formula == w1);
-                    check("C33.cf_rule.second_bound_follows", *formula2 == Some(w2));
-                }
-                _ => check("C33.cf_rule.kind_kept", false),
-            }
+            let (f1, f2) = match &cfs[0].cf_rule {
+                CfRule::CellIs { formula, formula2, .. } => (Some(formula.clone()), formula2.clone()),
+                _ => (None, None),
+            };
+            check("C33.cf_rule.first_bound_follows", f1 == Some(w1));
+            check("C33.cf_rule.second_bound_follows", f2 == Some(w2));
         }
     }
     reach("C33.cf_rule");
